@@ -414,6 +414,7 @@ func ConcProfileFor(name string, seed int64) ConcProfile {
 		p.Cols = []ColDesc{{"a", "int", []string{"add", "affine", "sat", "replace"}[r.Intn(4)], []string{"int", "int32", "int64", "uint64", "float64", "record", "int16", "uint16"}[r.Intn(8)]},
 			{"s", "str", "concat", "string"}}
 		p.PMerge, p.PInsert, p.PDelete = 0.85, 0.05, 0.05
+		p.PRollback = 0.15 // merges of a transaction that gives up are not applied - not by anybody
 		p.Writers = 2 + r.Intn(3)
 		p.Txns = 1 + r.Intn(2)
 		p.InitRows = 3
